@@ -40,7 +40,10 @@ inline AllocLedgerT &AL() {
 
 inline void alloc_event() {
   LedgerT &l = L();
-  if (++l.events == l.fault_at) throw std::bad_alloc();
+  if (++l.events == l.fault_at) {
+    ++l.faults_thrown;
+    throw std::bad_alloc();
+  }
 }
 
 inline void *ledger_allocate(size_t count, size_t esize) {
